@@ -153,6 +153,21 @@ def location_rules(rep, T, rule="R3", which=("parse_location_entries", "decode_p
                     ok = repr(ent[i].cond) == repr(want[i].cond) and repr(ent[i].a) == repr(want[i].a) and repr(ent[i].b) == repr(want[i].b)
                 ob3(ple.qualname, cfg, nm, ok, expected=show(want[i]), derived=show(ent[i]),
                     msg="co_positions(): %s of a code-%d location entry differs from CPython (%s)" % (nm, code, "long form stores column + 1" if code == 14 and "column" in nm else "locations.md"))
+        # ---- the line carried to the next entry: a following one-line entry (code 10, delta 0) must start on this entry's line, or on the
+        #      line before it when this entry has none
+        if "parse_location_entries" in which and isinstance(ent, tuple) and ln == 1:
+            q1, q2 = raw("q1"), raw("q2")
+            sp = Spec(F)
+            sp.eager_generators = True
+            out2 = sp.run(ple, [[first] + payload + [0x80 | (10 << 3) | 0, q1, q2], FL])
+            rets2 = [l.value for g, l in leaves(out2) if isinstance(l, Ret)]
+            nxt = rets2[0][1] if len(rets2) == 1 and isinstance(rets2[0], list) and len(rets2[0]) == 2 and isinstance(rets2[0][1], tuple) else None
+            base = want[1] if want[1] is not None else FL
+            okr = nxt is not None and repr(nxt[1]) == repr(base)
+            if not okr and nxt is not None and isinstance(base, Guard) and isinstance(nxt[1], Guard):
+                okr = repr(nxt[1].cond) == repr(base.cond) and repr(nxt[1].a) == repr(base.a) and repr(nxt[1].b) == repr(base.b)
+            ob3(ple.qualname, cfg, "line-carried-to-next-entry", okr, expected=show(base), derived=show(nxt[1]) if nxt is not None else show(rets2)[:120],
+                msg="co_positions(): the entry after a code-%d entry starts from the wrong line (every entry's line, with or without columns, is the base of the next delta)" % code)
         # ---- decode_position_entry / decode_linetable_entry: same bytes through an iterator
         for fobj, label in ((dpe, "position"), (dle, "line")):
             if fobj.name not in which:
@@ -418,6 +433,28 @@ def run(rep, tier):
     sp.run(fet, [bco, (3, 12)])
     txt = " ".join(show(e.args[2]) for k, e in flatten_effects(sp.effects) if k == "mutate")
     rep.ob("R4", fet.qualname, "prints-end-minus-2", "'end') + -2" in txt or "-2 + attr(" in txt, expected="entry.end - 2", derived=txt[:200])
+    # the table is rendered for every version tuple the loader produces for a 3.11+ magic (2- and 3-component tuples both occur), and for none before
+    from .marshal_rules import accepted_magics
+    shapes = {}
+    for mg, passed, version in accepted_magics(T):
+        if isinstance(version, tuple):
+            shapes.setdefault(tuple(version), mg)
+    n_shapes = 0
+    for vt_, mg in sorted(shapes.items()):
+        if not (vt_[:2] >= (3, 9)):
+            continue
+        n_shapes += 1
+        sp = Spec(F)
+        sp.gen_elem_hook = None
+        sp.assume[repr(Op("hasattr", bco, "exception_entries"))] = True
+        out_ = sp.run(fet, [bco, vt_])
+        rets_ = [l.value for g, l in leaves(out_) if isinstance(l, Ret)]
+        shown = any(k == "loop-begin" or (k == "mutate") for k, e in flatten_effects(sp.effects)) and not all(r == "" for r in rets_)
+        want_shown = vt_[:2] >= (3, 11)
+        rep.ob("R4", fet.qualname, "rendered@%s" % ".".join(str(x) for x in vt_), shown == want_shown, expected="table rendered" if want_shown else "empty string",
+               derived="rendered" if shown else "returns %r" % (rets_[:1],),
+               msg="for version tuple %r (magic %d) the ExceptionTable section is %s" % (vt_, mg, "missing" if want_shown else "printed although the version has none"))
+    rep.floor("version tuples of 3.9+ magics", n_shapes, 6)
     nconf = location_rules(rep, T)
     colines_ranges_rule(rep, T, "R5")
     # wiring: which decoder the public methods use
